@@ -21,6 +21,38 @@ func isURNType(t types.Type) bool {
 	return ok && n.Obj().Pkg() != nil && n.Obj().Pkg().Path() == urnsPkg && n.Obj().Name() == "URN"
 }
 
+// urnTaintDeclassify: whether phi edges that lie on the non-redacting edge of a policy test are skipped (on, except
+// where a rule wants to know that a function handles URN text at all).
+var urnTaintDeclassify = true
+
+// policyEdgeInto: like policyEdge for the control-flow edge pr -> succ.
+func policyEdgeInto(pr, succ *ssa.BasicBlock) int {
+	if e := policyEdge(pr); e != 0 {
+		return e
+	}
+	iff, ok := pr.Instrs[len(pr.Instrs)-1].(*ssa.If)
+	if !ok || pr.Succs[0] == pr.Succs[1] {
+		return 0
+	}
+	bo, ok := iff.Cond.(*ssa.BinOp)
+	if !ok || (bo.Op != token.EQL && bo.Op != token.NEQ) {
+		return 0
+	}
+	isPolicy := func(v ssa.Value) bool {
+		c, ok := v.(*ssa.Call)
+		return ok && c.Call.IsInvoke() && c.Call.Method.Name() == "RedactionPolicy"
+	}
+	isURNsConst := func(v ssa.Value) bool { s, ok := core.ConstString(v); return ok && s == "urns" }
+	if !((isPolicy(bo.X) && isURNsConst(bo.Y)) || (isPolicy(bo.Y) && isURNsConst(bo.X))) {
+		return 0
+	}
+	taken := pr.Succs[0] == succ
+	if (bo.Op == token.EQL) == taken {
+		return 1
+	}
+	return -1
+}
+
 // urnTaint reports whether v carries the identifying part (path, display, query, or the whole) of a URN.
 // It is an intraprocedural backward walk that understands which results of the urns API are harmless (the scheme).
 func urnTaint(v ssa.Value) (bool, string) {
@@ -77,9 +109,23 @@ func urnTaint(v ssa.Value) (bool, string) {
 					why = "result of " + n
 					return true
 				}
-				// redaction point: the result of withoutQuery is judged inside that function (R1b)
-				if n == "flows.ContactURN.withoutQuery" {
-					return false
+				// a function of the module with a body: judged by what its returns carry (c19Summary); a function
+				// whose URN-derived returns all lie on the false edge of a bool parameter is clean exactly when that
+				// parameter is the redaction policy test at this call
+				if g := x.Call.StaticCallee(); g != nil && g.Blocks != nil && core.InModule(core.FuncPkgPath(g)) && x.Type() != nil {
+					if _, isTuple := x.Type().(*types.Tuple); !isTuple {
+						sm := c19Summary(g)
+						switch {
+						case !sm.tainted:
+							return false
+						case sm.guard >= 0 && sm.guard < len(x.Call.Args) && c19IsPolicyTest(x.Call.Args[sm.guard]):
+							c19GuardedUses[x] = true
+							return false
+						default:
+							why = "result of " + n + " (" + sm.why + ")"
+							return true
+						}
+					}
 				}
 				// string helpers propagate
 				if strings.HasPrefix(n, "fmt.") || strings.HasPrefix(n, "strings.") || strings.HasPrefix(n, "strconv.") {
@@ -110,7 +156,12 @@ func urnTaint(v ssa.Value) (bool, string) {
 			}
 			return false
 		case *ssa.Phi:
-			for _, e := range x.Edges {
+			for i, e := range x.Edges {
+				// a value that only flows in over the non-redacting edge of a policy test exists only when the policy
+				// is off (a result variable assigned in the else-branch of the test)
+				if urnTaintDeclassify && policyEdgeInto(x.Block().Preds[i], x.Block()) == -1 {
+					continue
+				}
 				if walk(e) {
 					return true
 				}
@@ -166,6 +217,87 @@ func urnTaint(v ssa.Value) (bool, string) {
 	}
 	t := walk(v)
 	return t, why
+}
+
+// c19Sum: what the returns of a module function carry.
+type c19Sum struct {
+	tainted bool   // some return is URN-derived
+	guard   int    // >= 0: every URN-derived return lies on the false edge of this bool parameter
+	why     string // for the first tainted return
+}
+
+var c19Sums = map[*ssa.Function]*c19Sum{}
+
+// c19GuardedUses: calls judged clean because the callee redacts under the policy flag passed here.
+var c19GuardedUses = map[*ssa.Call]bool{}
+
+func c19Summary(g *ssa.Function) *c19Sum {
+	if sm, ok := c19Sums[g]; ok {
+		return sm
+	}
+	sm := &c19Sum{guard: -1}
+	// while being computed (recursion) a function counts as tainted when it returns a URN
+	sm.tainted = g.Signature.Results().Len() > 0 && isURNType(g.Signature.Results().At(0).Type())
+	sm.why = "recursive"
+	c19Sums[g] = sm
+	tainted := false
+	why := ""
+	guard := -2 // -2: no tainted return seen yet; -1: not guarded
+	for _, ret := range core.Returns(g) {
+		if len(ret.Results) == 0 {
+			continue
+		}
+		t, w := urnTaint(ret.Results[0])
+		if !t {
+			continue
+		}
+		if policyEdge(ret.Block()) == -1 {
+			continue // the function tests the policy itself: URN text only on its non-redacting edge
+		}
+		tainted = true
+		if why == "" {
+			why = w
+		}
+		gp := -1
+		for _, ce := range core.ControllingConds(ret.Block()) {
+			if prm, ok := ce.Cond.(*ssa.Parameter); ok && !ce.Taken {
+				for i, fp := range g.Params {
+					if fp == prm {
+						gp = i
+					}
+				}
+			}
+		}
+		if guard == -2 {
+			guard = gp
+		} else if guard != gp {
+			guard = -1
+		}
+	}
+	sm.tainted, sm.why = tainted, why
+	if tainted && guard >= 0 {
+		sm.guard = guard
+	} else {
+		sm.guard = -1
+	}
+	return sm
+}
+
+// c19IsPolicyTest: v is env.RedactionPolicy() == urns.
+func c19IsPolicyTest(v ssa.Value) bool {
+	bo, ok := v.(*ssa.BinOp)
+	if !ok || bo.Op != token.EQL {
+		return false
+	}
+	pol := false
+	for w := range core.BackSlice(bo, nil) {
+		if c2, ok := w.(*ssa.Call); ok && c2.Call.IsInvoke() && c2.Call.Method.Name() == "RedactionPolicy" {
+			pol = true
+		}
+	}
+	s1, _ := core.ConstString(bo.X)
+	s2, _ := core.ConstString(bo.Y)
+	return pol && (s1 == "urns" || s2 == "urns")
 }
 
 // policyEdge: the (must) controlling condition `env.RedactionPolicy() == urns` of block b, if any: returns +1 when b is
@@ -226,94 +358,63 @@ func checkC19(p *core.Program, r *core.Report) {
 		}
 		nTainted++
 		key := core.FuncName(rootFn(cs.Caller)) + "/NewXText"
-		if cs.Caller == toX {
-			// must be the withoutQuery result
-			viaWQ := false
-			for v := range core.BackSlice(cs.Common().Args[0], nil) {
-				if c, ok := v.(*ssa.Call); ok && c.Call.StaticCallee() == wq {
-					viaWQ = true
-				}
-			}
-			r.Check(viaWQ, "R1", key, p.Pos(cs.Pos()), "the conversion point: text comes from withoutQuery(redact)", "ContactURN.ToXValue exposes URN text that does not come from withoutQuery")
-			continue
-		}
-		r.Bad("R1", key, p.Pos(cs.Pos()), "URN-derived text ("+why+") is turned into an expression value outside ContactURN.ToXValue: it bypasses redaction")
+		r.Check(policyEdge(cs.Instr.Block()) == -1, "R1", key, p.Pos(cs.Pos()), "URN-derived text becomes an expression value only on the edge where the policy is not urns",
+			"URN-derived text ("+why+") is turned into an expression value on a path that is not the non-redacting edge of a RedactionPolicy test: redacted environments can see it")
 	}
 	r.Require("xtext_constructor_sites", nSinks, 100)
-	// ToXValue itself must be found as a sink of withoutQuery's result even though withoutQuery's result is "clean" by rule
-	okPoint := false
-	for _, cs := range core.Calls(toX, false) {
-		if o := core.CalleeObj(cs.Common()); o != nil && core.ObjName(o) == "excellent/types.NewXText" {
-			for v := range core.BackSlice(cs.Common().Args[0], nil) {
-				if c, ok := v.(*ssa.Call); ok && c.Call.StaticCallee() == wq {
-					// redact argument is RedactionPolicy() == urns
-					ra := c.Call.Args[len(c.Call.Args)-1]
-					if bo, ok := ra.(*ssa.BinOp); ok && bo.Op == token.EQL {
-						pol := false
-						for w := range core.BackSlice(bo, nil) {
-							if c2, ok := w.(*ssa.Call); ok && c2.Call.IsInvoke() && c2.Call.Method.Name() == "RedactionPolicy" {
-								pol = true
-							}
-						}
-						s1, _ := core.ConstString(bo.X)
-						s2, _ := core.ConstString(bo.Y)
-						okPoint = pol && (s1 == "urns" || s2 == "urns")
+	// the conversion point: ContactURN.ToXValue hands out URN text either from a callee that redacts under the policy
+	// flag it is passed, or itself on the non-redacting edge
+	{
+		point := false
+		for _, cs := range core.Calls(toX, false) {
+			if o := core.CalleeObj(cs.Common()); o != nil && core.ObjName(o) == "excellent/types.NewXText" {
+				urnTaint(cs.Common().Args[0])
+				for v := range core.BackSlice(cs.Common().Args[0], nil) {
+					if c, ok := v.(*ssa.Call); ok && c19GuardedUses[c] {
+						point = true
+						r.OK("R1", "ContactURN.ToXValue/redact=policy==urns", p.Pos(c.Pos()), c.Call.StaticCallee().Name()+"(env.RedactionPolicy() == urns): its URN-derived returns lie on the false edge of that flag")
 					}
 				}
-			}
-		}
-	}
-	r.Check(okPoint, "R1", "ContactURN.ToXValue/redact=policy==urns", p.Pos(toX.Pos()), "withoutQuery(env.RedactionPolicy() == urns)", "the redact flag passed to withoutQuery is not the environment's redaction policy test")
-	// other producers of X values from URNs: functions that return XValue built from URN data without NewXText (e.g. NewXObject maps)
-	// are covered because every leaf text goes through NewXText.
-
-	// ------------------------------------------------------------------ R1b withoutQuery
-	var redactP *ssa.Parameter
-	for _, prm := range wq.Params {
-		if b, ok := prm.Type().Underlying().(*types.Basic); ok && b.Kind() == types.Bool {
-			redactP = prm
-		}
-	}
-	if redactP == nil {
-		r.Errorf("withoutQuery has no bool parameter")
-		return
-	}
-	nRet := 0
-	for _, ret := range core.Returns(wq) {
-		nRet++
-		t, why := urnTaint(ret.Results[0])
-		edge := 0
-		for _, ce := range core.ControllingConds(ret.Block()) {
-			if ce.Cond == ssa.Value(redactP) {
-				if ce.Taken {
-					edge = 1
-				} else {
-					edge = -1
+				if t, _ := urnTaint(cs.Common().Args[0]); t && policyEdge(cs.Instr.Block()) == -1 {
+					point = true
+					r.OK("R1", "ContactURN.ToXValue/unredacted-edge", p.Pos(cs.Pos()), "URN text on the edge where the policy is not urns")
 				}
 			}
 		}
-		key := fmt.Sprintf("ContactURN.withoutQuery/return#%d", nRet)
-		switch {
-		case t && edge != -1:
-			r.Bad("R1", key, p.Pos(ret.Pos()), "returns URN-derived text ("+why+") on a path that is not the redact==false edge: redacted environments can see it")
-		case !t && edge == 1:
-			r.OK("R1", key, p.Pos(ret.Pos()), "redacting edge returns scheme + constant only")
-		case t && edge == -1:
-			r.OK("R1", key, p.Pos(ret.Pos()), "URN text only on the redact==false edge")
-		default:
-			r.OK("R1", key, p.Pos(ret.Pos()), "returns nothing URN-derived")
+		r.Check(point, "R1", "ContactURN.ToXValue/conversion-point", p.Pos(toX.Pos()), "URN text is produced under the policy test", "ContactURN.ToXValue does not hand out URN text under a redaction policy test at all (the positive direction: without the policy expressions see the URN)")
+	}
+	// per return of every module function that was judged by a guard parameter: nothing URN-derived off the false edge
+	for g, sm := range c19Sums {
+		if sm.guard < 0 {
+			continue
+		}
+		nRet := 0
+		for _, ret := range core.Returns(g) {
+			nRet++
+			t, why := urnTaint(ret.Results[0])
+			onFalse := false
+			for _, ce := range core.ControllingConds(ret.Block()) {
+				if ce.Cond == ssa.Value(g.Params[sm.guard]) && !ce.Taken {
+					onFalse = true
+				}
+			}
+			key := fmt.Sprintf("%s/return#%d", core.FuncName(g), nRet)
+			r.Check(!t || onFalse, "R1", key, p.Pos(ret.Pos()), map[bool]string{true: "URN text only on the redact==false edge", false: "returns nothing URN-derived"}[t],
+				"returns URN-derived text ("+why+") on a path that is not the redact==false edge: redacted environments can see it")
 		}
 	}
-	r.Require("withoutQuery_returns", nRet, 2)
 	// ------------------------------------------------------------------ R1c Contact.Format
 	nF := 0
 	for _, ret := range core.Returns(format) {
-		t, why := urnTaint(ret.Results[0])
-		if !t {
+		urnTaintDeclassify = false
+		raw, why := urnTaint(ret.Results[0])
+		urnTaintDeclassify = true
+		if !raw {
 			continue
 		}
 		nF++
-		r.Check(policyEdge(ret.Block()) == -1, "R1", "Contact.Format/urn-only-unredacted", p.Pos(ret.Pos()), "URN-derived display only on the edge where the policy is not urns",
+		t, _ := urnTaint(ret.Results[0])
+		r.Check(!t || policyEdge(ret.Block()) == -1, "R1", "Contact.Format/urn-only-unredacted", p.Pos(ret.Pos()), "URN-derived display only on the edge where the policy is not urns",
 			"Contact.Format returns URN-derived text ("+why+") on a path not dominated by the non-redacting edge of the policy test: a nameless contact is shown by URN under redaction")
 	}
 	r.Require("contact_format_urn_returns", nF, 1)
@@ -349,7 +450,8 @@ func checkC19(p *core.Program, r *core.Report) {
 
 	// ------------------------------------------------------------------ R3
 	posOK := false
-	for _, cs := range core.Calls(wq, false) {
+	for _, ec := range core.EffectiveCalls(toX, 1) {
+		cs := ec.Inner
 		if o := core.CalleeObj(cs.Common()); o != nil && o.Pkg() != nil && o.Pkg().Path() == urnsPkg && o.Name() == "NewFromParts" {
 			a := cs.Common().Args
 			idx := func(v ssa.Value) int {
@@ -363,7 +465,7 @@ func checkC19(p *core.Program, r *core.Report) {
 			}
 		}
 	}
-	r.Check(posOK, "R3", "ContactURN.withoutQuery/keeps-scheme-path-display", p.Pos(wq.Pos()), "NewFromParts(scheme, path, nil, display)", "without the policy the URN handed to expressions no longer carries scheme, path and display")
+	r.Check(posOK, "R3", "ContactURN.ToXValue/keeps-scheme-path-display", p.Pos(toX.Pos()), "NewFromParts(scheme, path, nil, display)", "without the policy the URN handed to expressions no longer carries scheme, path and display")
 
 	// ------------------------------------------------------------------ R2 queries
 	c19R2(p, r)
@@ -492,14 +594,19 @@ func c19R2(p *core.Program, r *core.Report) {
 	// ParseQuery's tel rewrite
 	pq := p.Func("contactql", "ParseQuery")
 	if pq != nil {
-		ok := false
-		for _, cs := range core.Calls(pq, false) {
-			if o := core.CalleeObj(cs.Common()); o != nil && core.ObjName(o) == "fmt.Sprintf" {
-				if s, isC := core.ConstString(cs.Common().Args[0]); isC && strings.HasPrefix(s, "tel") {
-					ok = policyEdge(cs.Instr.Block()) == -1
+		// wherever a constant starting with `tel` is used to build text (Sprintf format or concatenation)
+		ok, nTel := true, 0
+		core.EachInstr(pq, false, func(_ *ssa.Function, in ssa.Instruction) {
+			for _, op := range in.Operands(nil) {
+				if s, isC := core.ConstString(*op); isC && strings.HasPrefix(s, "tel") {
+					nTel++
+					if policyEdge(in.Block()) != -1 {
+						ok = false
+					}
 				}
 			}
-		}
+		})
+		ok = ok && nTel > 0
 		r.Check(ok, "R2", "ParseQuery/tel-rewrite-unredacted-only", p.Pos(pq.Pos()), "a bare number becomes `tel = ...` only when the policy is not urns", "a bare number is rewritten into a tel query under redaction")
 	}
 }
